@@ -15,11 +15,12 @@ EXPLANATION = (
     "paths (origin terms), so sources and metafiles are never altered. C14.2 no clobber: the function that performs the "
     "copy is traced for every combination of (source exists, destination exists, size ordering <,=,>); the copy may be "
     "reached only when the source exists and the destination is missing or shorter. C14.3 verified source: at each call "
-    "of the copy function the source is a search-index candidate bound by the enclosing candidate loop, and the call is "
-    "control-dependent on (a) the candidate's size equalling the recorded length and (b) the truth of a value whose "
-    "origin term is an equality between a recorded hash and a hash computed over bytes read from that same candidate "
-    "(or the recorded length being zero). C14.4: the destination is the containment-checked join of the destination "
-    "argument with the path the metafile assigns.")
+    "of the copy function (or of a helper that hands its source parameter on to it) the source is a search-index candidate bound by the enclosing "
+    "candidate loop - or returned by a selector function, or parked in a mapping whose key tells the entries apart - and, within one iteration of "
+    "that loop, the copy is out of reach (a) when the candidate's size differs from the recorded length and (b) when a recorded hash differs from "
+    "the hash computed over bytes read from that same candidate (or the recorded length is zero). C14.4: the destination is the containment-checked "
+    "join of the destination argument with the path the metafile assigns; every node of the v1 piece map covers at least one byte. C14.5: the relative "
+    "destination, evaluated as a component sequence from the reader's record literals, is the path the metafile assigns.")
 RULE_TEXT = "one obligation per reachable primitive and written argument (C14.1), per decision-table row (C14.2), per copy call site and clause (C14.3/.4)"
 
 ENTRY_FUNCS = ["torrentfile.commands:rebuild"]
